@@ -114,7 +114,7 @@ Definition link_steps (pre : path) (src : tree) (o : str) : list step :=
 (* storeFile: ensureStoreReady (MkdirAll of the temp dir, RemoveAll of the file's old copy in it),
    then RecursiveLink *)
 Definition out_steps (order : list path) (src : tree) (st : fs) (o : str) : list step :=
-  [SMkdir [kT]] ++ rm_steps order [kT; o] st ++ link_steps [kT] src o.
+  [SMkdir [kT]] ++ rm_steps order [kT; o] (exec st (SMkdir [kT])) ++ link_steps [kT] src o.
 
 Fixpoint outs_steps (order : list path) (src : tree) (st : fs) (outs : list str) : list step :=
   match outs with
